@@ -8,7 +8,7 @@ fn main() {
     run_cases(|input| {
         let msg = bytes_of_wide(&input["msg"]);
         let may = input["mayCompress"].as_bool().unwrap_or(false);
-        let strict = input["mode"].as_str() != Some("mutant");
+        let strict = input["strictOpts"].as_bool().unwrap_or(false);
         let obs = rdata::observe_rdata(&msg, may, strict);
         if obs["parse"] == "ok" {
             // the library must report the type the record was sent with
